@@ -299,7 +299,12 @@ def check_b(ck, repo):
         for p in full:
             R = p.ret_text()
             shape = R.replace(" ", "")
-            alloc = any(shape.startswith(f"numpy.{fn_}(({X}.shape[0],len({EST}))") for fn_ in ("empty", "zeros"))
+            # a read-only property that returns len(estimators_) is that length
+            for pn_, pm_ in ci.methods.items():
+                rets_ = [r_ for r_ in own_nodes(pm_.node) if isinstance(r_, ast.Return) and r_.value is not None]
+                if any(src_of(d_) == "property" for d_ in pm_.node.decorator_list) and len(rets_) == 1 and len(pm_.node.body) <= 2 and src_of(rets_[0].value) == f"len({EST})":
+                    shape = shape.replace(f"self.{pn_})", f"len({EST}))").replace(f"self.{pn_},", f"len({EST}),")
+            alloc = any(shape.startswith(f"numpy.{fn_}(({X}.shape[0],len({EST}))") for fn_ in ("empty", "zeros", "full"))
             st = {k: _t(v) for k, v in p.stores.items()}
             ok_p = False
             it = l.iter
@@ -324,7 +329,13 @@ def check_b(ck, repo):
         pp = full[:1] if full else pp
     # the buffer keeps the predictions as they are: float64 (the default), not the dtype of X
     if len(pp) == 1 and isinstance(pp[0].ret, ast.Call):
-        dt = [k.value for k in pp[0].ret.keywords if k.arg == "dtype"] + list(pp[0].ret.args[1:2])
+        pos_ = 2 if src_of(pp[0].ret.func).endswith(".full") else 1
+        dt = [k.value for k in pp[0].ret.keywords if k.arg == "dtype"] + list(pp[0].ret.args[pos_:pos_ + 1])
+        if pos_ == 2 and not dt:
+            # numpy.full without a dtype takes the type of the fill value: an integer fill makes an integer buffer
+            fv = pp[0].ret.args[1] if len(pp[0].ret.args) > 1 else next((k.value for k in pp[0].ret.keywords if k.arg == "fill_value"), None)
+            if fv is not None and isinstance(fv, ast.Constant) and not isinstance(fv.value, float):
+                dt = [ast.Name(id=f"type of fill value {fv.value!r}", ctx=ast.Load())]
         FLOAT64 = ("float", "numpy.float64", "'float64'", "numpy.double", "'float'", "'f8'", "'d'", "numpy.float_", "None")
         lossy = [d for d in dt if src_of(d).replace('"', "'") not in FLOAT64]
         ck.verdict(not lossy, "C17.b", pa, f"buffer dtype {[src_of(d) for d in dt] or 'float64 (default)'}", "the matrix stores each model's prediction unchanged", f"the matrix of individual predictions is allocated with dtype={src_of(lossy[0]) if lossy else ''}: predictions are cast (rounded or truncated) when stored, so predict_all/predict_sorted no longer hold the individual predictions and predict is not their mean")
